@@ -216,6 +216,15 @@ def check_flag_writes(ctx, model):
                     det.append(sorted(map(repr, os_)))
                     ok = ok and bool(os_) and all(o.kind == "param" and o.proj and o.proj[-1] == flag for o in os_)
                 ctx.ob("C17-P4", "vault|update_config|%s" % flag, ok, "CONFIG.%s assigned from %s (must be the request's %s)" % (flag, det, flag), v.where(sb))
+                # ... and only when the request names it: with the field absent (None) the assignment is unreachable, so an
+                # update that names one switch leaves the others as stored (None is "leave unchanged", not "false")
+                from ..dataflow import variant_excluded_edges
+                pred = lambda os_, flag=flag: bool(os_) and all(o.kind == "param" and o.proj and o.proj[-1] == flag for o in os_)
+                cut_none = variant_excluded_edges(v, "option::Option", pred, "None")
+                reach_none = v.reachable(0, cut_edges=cut_none)
+                leaked = [s_.block for s_ in srcs if s_.block is not None and s_.block in reach_none]
+                ctx.ob("C17-P4", "vault|update_config|%s|only-when-named" % flag, bool(cut_none) and not leaked,
+                       "with the request's %s absent the flag assignment is %s" % (flag, "reachable (bb%s)" % leaked if leaked or not cut_none else "unreachable"), v.where(sb))
     for crate in sorted(POOLS):
         p = "%s::commands::update_config" % crate
         v = ctx.view(p, "C17-P4")
@@ -230,6 +239,13 @@ def check_flag_writes(ctx, model):
                 det.append(sorted(map(repr, os_)))
                 ok = ok and bool(os_) and all(o.kind == "param" and "FeatureToggle" in v.local_ty(o.a) and not o.proj for o in os_)
             ctx.ob("C17-P4", "%s|update_config|feature_toggle" % crate, ok, "CONFIG.feature_toggle assigned from %s (must be the request's whole feature_toggle)" % det, v.where(sb))
+            from ..dataflow import variant_excluded_edges
+            pred = lambda os_: bool(os_) and all(o.kind == "param" and "FeatureToggle" in v.local_ty(o.a) for o in os_)
+            cut_none = variant_excluded_edges(v, "option::Option", pred, "None")
+            reach_none = v.reachable(0, cut_edges=cut_none)
+            leaked = [s_.block for s_ in srcs if s_.block is not None and s_.block in reach_none]
+            ctx.ob("C17-P4", "%s|update_config|feature_toggle|only-when-named" % crate, bool(cut_none) and not leaked,
+                   "with the request's feature_toggle absent the assignment is %s" % ("reachable" if leaked or not cut_none else "unreachable"), v.where(sb))
 
 
 def check_defaults(ctx, model, crate, inst, flagset, adt_rx):
